@@ -184,10 +184,11 @@ theorem C17_history_marker (dir : String) (cfg : Cfg) (hcfg : cfg.Valid) (h : Li
           | merge order => exact absurd rfl (h1 order)
           | restart cfg' => exact absurd rfl (h2 cfg')
           | backup dest =>
-            obtain ⟨X, e⟩ := backup_eq hs0 dest
+            obtain ⟨W, e, _, hwm⟩ := backup_eq hs0 dest
             show (backup s dest).1.world.get (mergeDirName dir) = _
             rw [e]
-            exact MergeP.get_set_ne _ _ _ _ (fun e => hop.2 e.symm))
+            have := hwm (by rw [hd0]; exact hop.1) (by rw [hd0]; exact hop.2)
+            rw [hd0] at this; exact this)
       h _ ⟨specEmpty, .none⟩ hi0.toQ (fun op hop => ⟨hok op hop, trivial⟩) hwf hrunok n hn
     rw [stateAt_succ dir cfg h n hn]
     exact key
